@@ -59,7 +59,7 @@ def discharge(ob: Obligation, tier: str):
     """Discharge with the tier's budget; a property obligation left undecided by the quick budget gets
     one more attempt with the thorough budget before it is reported as undecided."""
     _discharge(ob, tier)
-    if ob.status == "unknown" and ob.kind == "property" and tier == "quick" and not str(ob.backend).startswith("DISAGREE"):
+    if ob.status == "unknown" and ob.kind != "prune" and tier == "quick" and not str(ob.backend).startswith("DISAGREE"):
         first = ob.ms
         _discharge(ob, "retry")
         ob.ms += first
@@ -659,6 +659,12 @@ class Verifier:
                 e2["result"] = result
                 nfr = self.cdb.contract_frame(it, con, self.cdb.fn_env(con.ensures, e2), None, old_heap=old_heap, old_env=old_env)
                 for name, term in self.cdb.eval_clauses_fn(it, con.ensures, nfr):
+                    if name.startswith("D_"):
+                        # instance of the definition of an opaque ghost predicate (g(args) == its defining formula at
+                        # these arguments): assumed here, so that the clauses stated with g can be proved; not exported
+                        it.notes.add(f"opaque definition unfolded at the return point: {name} (contract {con.name})")
+                        it.assume(term)
+                        continue
                     if name.startswith("A_"):
                         # ghost definition ("the result is named g(args)"): nothing to prove here; callers assume it
                         it.notes.add(f"ghost definition in ensures assumed at call sites, not an obligation: {name} (contract {con.name})")
